@@ -60,6 +60,9 @@ typedef struct {
     long      nviol_records;
     int       maxdepth_seen;
     long      vis_used;
+    char      rule[1500];
+    int       asan_pids[4096]; /* ring of pids whose death ASan has already explained */
+    long      asan_npids;
 } shared_t;
 
 static shared_t *S;
@@ -208,8 +211,21 @@ asan_cb(const char *report)
         n = 1200;
     memcpy(detail, report, n);
     detail[n] = 0;
-    if (S)
+    if (S) {
+        long slot = __sync_fetch_and_add(&S->asan_npids, 1);
+        S->asan_pids[slot % 4096] = (int)getpid();
         write_violation(sig, detail);
+    }
+}
+
+static int
+asan_explained(pid_t pid)
+{
+    long n = S->asan_npids > 4096 ? 4096 : S->asan_npids;
+    for (long i = 0; i < n; i++)
+        if (S->asan_pids[i] == (int)pid)
+            return 1;
+    return 0;
 }
 
 int
@@ -485,6 +501,15 @@ mc_harness_error(const char *fmt, ...)
 }
 
 void
+mc_rule(const char *fmt, ...)
+{
+    va_list ap;
+    va_start(ap, fmt);
+    vsnprintf(S->rule, sizeof S->rule, fmt, ap);
+    va_end(ap);
+}
+
+void
 mc_sample(const char *fmt, ...)
 {
     if (!S || S->nsamples >= 12)
@@ -625,6 +650,8 @@ reap(kid_t *k)
     }
     if (bad && k->async)
         __sync_fetch_and_add(&S->slots, 1); /* the child died before it could give its slot back */
+    if (bad && WIFEXITED(status) && asan_explained(k->pid))
+        bad = 0; /* ASan already reported the fatal error with a specific signature */
     if (bad) {
         /* attribute to the op that the child was executing (its own op or its terminal probe) */
         g_trace[g_tracelen++] = k->op;
@@ -863,6 +890,7 @@ scratch_sync(void)
     memcpy(g_scratch->kase, g_case, sizeof g_case);
 }
 
+static pid_t g_last_child;
 static int
 run_child(long a, long b, void (*run)(long, void *), void *ctx, int timeout_s, int *status_out)
 {
@@ -881,7 +909,8 @@ run_child(long a, long b, void (*run)(long, void *), void *ctx, int timeout_s, i
     int status = 0;
     while (waitpid(c, &status, 0) < 0 && errno == EINTR)
         ;
-    *status_out = status;
+    *status_out  = status;
+    g_last_child = c;
     return WIFSIGNALED(status) || (WIFEXITED(status) && WEXITSTATUS(status) != 0 && WEXITSTATUS(status) != EXIT_HARNESS);
 }
 
@@ -927,6 +956,8 @@ mc_foreach(long n, void (*run)(long idx, void *ctx), void *ctx, int batch, int t
                     __sync_fetch_and_add(&S->cases, 1);
                     if (!bad)
                         continue;
+                    if (WIFEXITED(status) && asan_explained(g_last_child))
+                        continue; /* ASan already reported the fatal error with a specific signature */
                     /* the child publishes its config when it calls mc_set_config/mc_set_case */
                     memcpy(g_cfg, g_scratch->cfg, sizeof g_cfg);
                     g_ncfg = g_scratch->ncfg;
@@ -1030,6 +1061,11 @@ mc_finish(void)
             S->states, S->transitions, S->traces, S->pruned, S->cases, S->case_failures);
     fprintf(fp, " \"distinct_outcomes\":%ld,\"deadline_hit\":%d,\"harness_errors\":%d,\"max_depth\":%d,\"workers\":%d,\n",
             S->noutcomes, S->deadline_hit, S->harness_errors, S->maxdepth_seen, g_nworkers);
+    {
+        char er[3200];
+        json_escape(S->rule, er, sizeof er);
+        fprintf(fp, " \"rule_text\":\"%s\",\n", er);
+    }
     fprintf(fp, " \"rounds\":[");
     for (int i = 0; i < S->nrounds; i++) {
         round_t *r = &S->rounds[i];
